@@ -70,7 +70,8 @@ package pfcp
 //@      s.FARIDs != s.QERIDs && s.rnode != nil && s.rnode.driver != nil &&
 //@      ownerOf(s.PDRIDs) == s && ownerOf(s.FARIDs) == s && ownerOf(s.QERIDs) == s && ownerOf(s.URRIDs) == s && ownerOf(s.BARIDs) == s && ownerOf(s.q) == s &&
 //@      (forall p uint16 :: p in s.PDRIDs ==> s.PDRIDs[p] != nil) &&
-//@      (forall u uint32 :: u in s.URRIDs ==> s.URRIDs[u] != nil)
+//@      (forall u uint32 :: u in s.URRIDs ==> s.URRIDs[u] != nil && ownerOf(s.URRIDs[u]) == s) &&
+//@      (forall u1 uint32; u2 uint32 :: u1 in s.URRIDs && u2 in s.URRIDs && u1 != u2 ==> s.URRIDs[u1] != s.URRIDs[u2])
 
 // book(s): the session's bookkeeping covers everything installed under its SEID (this is why ids are recorded
 // before the driver call), and holds only ids for which a Create call reached the data plane.
@@ -85,7 +86,8 @@ package pfcp
 //@      (forall id uint32 :: id in s.FARIDs ==> RuleKey(s.LocalID, 2, uint64(id)) in CREATED) &&
 //@      (forall id uint32 :: id in s.QERIDs ==> RuleKey(s.LocalID, 3, uint64(id)) in CREATED) &&
 //@      (forall id uint32 :: id in s.URRIDs ==> RuleKey(s.LocalID, 4, uint64(id)) in CREATED) &&
-//@      (forall id uint8 :: id in s.BARIDs ==> RuleKey(s.LocalID, 5, uint64(id)) in CREATED)
+//@      (forall id uint8 :: id in s.BARIDs ==> RuleKey(s.LocalID, 5, uint64(id)) in CREATED) &&
+//@      (forall u uint32 :: u in s.URRIDs && s.URRIDs[u].removed ==> !(RuleKey(s.LocalID, 4, uint64(u)) in DP))
 
 // qWF(s): every queue of the session is a distinct, open channel whose length is within its capacity.
 //@ pred qWF(s *Sess) = s.q != nil && s.qlen >= 0 &&
@@ -261,6 +263,7 @@ package pfcp
 //@   ensures [method] ok(req.URRID()) ==> s.URRIDs[val(req.URRID())].VOLUM == req.HasVOLUM() &&
 //@                     s.URRIDs[val(req.URRID())].DURAT == req.HasDURAT() && s.URRIDs[val(req.URRID())].EVENT == req.HasEVENT()
 //@   modifies s.URRIDs[_], DP, CREATED
+//@   owns s.URRIDs[val(req.URRID())] by s when ok(req.URRID())
 //@   reveal sessOK
 //@   reveal nodeInv allSessOK dpLive lnodeWF
 //@   uses ok frameok for node hiding sessOK
